@@ -135,6 +135,11 @@ WeakEq(a, b) ==      \* [val |-> BOOLEAN] or error; mirrors the documented ==
        (IF IsOpqF(a) /\ IsOpqF(b) THEN Ok(a.bits = b.bits)      \* finite floats are equal iff they are the same float64 (zeros are not opaque)
         ELSE IF (IsOpqF(a) /\ b.k \in {"int", "float"}) \/ (IsOpqF(b) /\ a.k \in {"int", "float"}) THEN Ok(FALSE)   \* an opaque float is no exact one
         ELSE Unspec)
+  ELSE IF a.k = "bigint" \/ b.k = "bigint" THEN      \* integers beyond the arithmetic range: canonical decimal texts, disjoint from the small ones
+       (IF a.k = "bigint" /\ b.k = "bigint" THEN Ok(a.txt = b.txt)
+        ELSE IF a.k = "float" \/ b.k = "float" THEN Unspec
+        ELSE IF a.k = "nil" \/ b.k = "nil" THEN NilErr
+        ELSE Ok(FALSE))
   ELSE IF IsNum(a) /\ IsNum(b) /\ a.k # b.k THEN Ok(FCmp(ToF(a), ToF(b)) = "eq")
   ELSE IF a.k = "arr" /\ b.k = "arr" THEN
        IF Len(a.v) # Len(b.v) THEN Ok(FALSE)
@@ -202,9 +207,31 @@ Index2(a, i, j) ==
   ELSE IF i.v < 0 \/ i.v > Len(a.v) \/ j.v < i.v \/ j.v > Len(a.v) THEN Err("index")
   ELSE Ok([a EXCEPT !.v = SubSeq(a.v, i.v + 1, j.v)])
 
+\* Integers beyond the arithmetic range are decimal texts (canonical: no leading zeros, "-" for negatives).  Order and equality of
+\* integers do not depend on how wide the implementation's integers are, so they are decided on the texts; arithmetic stays Unspecified.
+DigV(c) == CASE c = "0" -> 0 [] c = "1" -> 1 [] c = "2" -> 2 [] c = "3" -> 3 [] c = "4" -> 4 [] c = "5" -> 5 [] c = "6" -> 6 [] c = "7" -> 7 [] c = "8" -> 8 [] c = "9" -> 9
+IntLike(v) == v.k \in {"int", "bigint"}
+RECURSIVE NatStrV(_)
+NatStrV(n) == IF n < 10 THEN <<CASE n = 0 -> "0" [] n = 1 -> "1" [] n = 2 -> "2" [] n = 3 -> "3" [] n = 4 -> "4" [] n = 5 -> "5" [] n = 6 -> "6" [] n = 7 -> "7" [] n = 8 -> "8" [] n = 9 -> "9">>
+              ELSE NatStrV(n \div 10) \o NatStrV(n % 10)
+IntTxt(v) == IF v.k = "bigint" THEN v.txt ELSE IF v.v < 0 THEN <<"-">> \o NatStrV(-v.v) ELSE NatStrV(v.v)
+NegTxt(t) == t[1] = "-"
+RECURSIVE LexCmp(_, _)
+LexCmp(x, y) == IF Len(x) = 0 THEN "eq" ELSE IF DigV(x[1]) < DigV(y[1]) THEN "lt" ELSE IF DigV(x[1]) > DigV(y[1]) THEN "gt" ELSE LexCmp(Tail(x), Tail(y))
+MagCmp(x, y) == IF Len(x) < Len(y) THEN "lt" ELSE IF Len(x) > Len(y) THEN "gt" ELSE LexCmp(x, y)
+TxtCmp(s, t) == IF NegTxt(s) /\ ~NegTxt(t) THEN "lt" ELSE IF ~NegTxt(s) /\ NegTxt(t) THEN "gt" ELSE IF ~NegTxt(s) THEN MagCmp(s, t)
+                ELSE LET c == MagCmp(Tail(s), Tail(t)) IN IF c = "lt" THEN "gt" ELSE IF c = "gt" THEN "lt" ELSE "eq"
+RECURSIVE BinApply(_, _, _)
 BinApply(op, a, b) ==
   IF a.k = "bigint" \/ b.k = "bigint" THEN
-     (IF op \in {"==", "!="} /\ a.k = "bigint" /\ b.k = "bigint" THEN Ok(BoolV((a.txt = b.txt) = (op = "=="))) ELSE Unspec)
+     (IF IntLike(a) /\ IntLike(b) THEN
+          LET c == TxtCmp(IntTxt(a), IntTxt(b)) IN
+          CASE op = "==" -> Ok(BoolV(c = "eq")) [] op = "!=" -> Ok(BoolV(c # "eq"))
+            [] op = "<" -> Ok(BoolV(c = "lt")) [] op = ">" -> Ok(BoolV(c = "gt")) [] op = "<=" -> Ok(BoolV(c # "gt")) [] op = ">=" -> Ok(BoolV(c # "lt"))
+            [] OTHER -> Unspec
+      ELSE IF a.k = "float" \/ b.k = "float" \/ (a.k = "bigint" /\ b.k = "bigint") THEN Unspec
+      \* the other operand is no number: the outcome (a type or nil error, or "not equal") is that of any integer in its place
+      ELSE IF a.k = "bigint" THEN BinApply(op, IntV(1), b) ELSE BinApply(op, a, IntV(1)))
   ELSE
   CASE op \in {"+", "-", "*", "/"} -> Arith(op, a, b)
     [] op = "%" -> Mod(a, b)
